@@ -147,6 +147,45 @@ fn limits_and_faulty_extensions(rep: &Report) {
     });
     rep.eval(execs.load(std::sync::atomic::Ordering::Relaxed));
     rep.extra("extended_files_under_read_faults", json!({"inputs":items.len(),"executions":execs.load(std::sync::atomic::Ordering::Relaxed)}));
+    // (c) extensions a "text-safe" transfer might add or a tolerant reader might forgive: CR LF, LF, CR, NUL, Ctrl-Z, blank, FF,
+    // two of them -- through the CLI, FILE argument and stdin, both modes: never exit 0
+    {
+        let small = plaintext(seed ^ 0x3c4, 1000);
+        let kf1 = r::write_key_file(&alice.sk, &bob.pk, &derive32(seed, "c03-crlf-e"), &derive32(seed, "c03-crlf-p"), &small, &[1000]).unwrap();
+        let pf1 = r::write_pass_file_with_key(&r::pass_key(b"filepw", &salt), &salt, &small, &[1000]);
+        let tails: Vec<&[u8]> = vec![b"\r\n", b"\n", b"\r", b"\0", b"\x1a", b" ", b"\x0c", b"\r\n\r\n", b"\n\n", b"\0\0", b"\xff"];
+        let mut tj = vec![];
+        for mode in ["key", "pass"] {
+            for (ti, _) in tails.iter().enumerate() {
+                for via_stdin in [false, true] {
+                    tj.push((mode, ti, via_stdin));
+                }
+            }
+        }
+        tj.par_iter().for_each(|&(mode, ti, via_stdin)| {
+            rep.eval(1);
+            rep.nontrivial(format!("c03-tail-{}-{}-{}", mode, ti, via_stdin).as_bytes());
+            let mut f = if mode == "key" { kf1.clone() } else { pf1.clone() };
+            f.extend_from_slice(tails[ti]);
+            let sc = Scratch::new();
+            sc.write("kr.txt", kr.as_bytes());
+            sc.write("in.ktl", &f);
+            let mut args: Vec<&str> = if mode == "key" { vec!["decrypt", "-t", "bob", "-k", "kr.txt", "-o", "out.bin", "--env-pass"] } else { vec!["password", "decrypt", "-o", "out.bin", "--env-pass"] };
+            let mut c;
+            if via_stdin {
+                c = Cmd::new(&args).stdin(&f);
+            } else {
+                args.insert(if mode == "key" { 1 } else { 2 }, "in.ktl");
+                c = Cmd::new(&args);
+            }
+            c = c.env("KESTREL_PASSWORD", if mode == "key" { "bobpw" } else { "filepw" });
+            let o = proc::run(&c, &sc.0);
+            if o.well_behaved().is_ok() && o.ok() {
+                rep.violation("cli/extension-accepted", json!({"kind":"limits","mode":mode,"tail":hx(tails[ti]),"stdin":via_stdin}), format!("kestrel {} decrypt accepts (exit 0) an authentic file followed by the bytes {} ({})", mode, hx(tails[ti]), if via_stdin { "on stdin" } else { "FILE argument" }));
+            }
+        });
+        rep.extra("cli_forgivable_tails", json!(tj.len()));
+    }
     rep.extra("cli_size_limited_outputs", json!(jobs.len()));
 }
 
